@@ -25,6 +25,23 @@ def prelude_text():
 UNTRACED = {'handle_error', 'handle_warning', 'handle_expect', 'set_position'}
 
 
+def stray_fragments(sim, part, text):
+    """expression fragments a block text leaves behind beyond the one a complete parse delivers: what the replay of the parser pushes in all (recovery included)
+    minus one if the parse is accepted (None: not lexable, or a callback whose effect depends on its arguments occurs)"""
+    import gen_lr
+    toks = sim.lex_many([(text, True, False)])[0]
+    if toks is None or any(t[0] == 'T_ERROR' for t in toks):
+        return None
+    calls, outcome = sim.run(START[part][0], toks)
+    h = 0
+    for c in calls:
+        e = gen_lr.EFFECTS.get(c)
+        if e is None or not all(isinstance(x, int) for x in e['fragments']):
+            return None
+        h += e['fragments'][1]
+    return h - (1 if outcome == 'accept' else 0)
+
+
 class Sim:
     def __init__(self):
         self.G = gen_grammar.load()
